@@ -17,7 +17,9 @@ MANIFEST = {
  "note": "Trusted: Lean kernel (propext, Classical.choice, Quot.sound), RB tree = sorted list abstraction (validated by "
          "callback order and caught counters), kernel signal semantics as modelled (synchronous raise, SA_RESETHAND resets "
          "before the handler runs), clang/ASan. Loops are run from one thread (deterministic); real multi-thread scheduling, "
-         "signal masking, pipe overflow (excluded by the property) and fork are not modelled.",
+         "signal masking, pipe overflow (excluded by the property) and fork are not modelled: the block-signals/take-lock "
+         "protocol of start/stop/close is exercised by monitors only (a watched signal raised at every system-call boundary "
+         "inside the call, helper-process watchdog).",
  "design": "DESIGN.md §3 C13",
  "technique": "Lean 4 proof over executable model + correspondence (whole-library simulator, sigaction observation) + monitors",
 }
@@ -766,7 +768,7 @@ def gencmp_signal(ctx):
     import gencmp
     keys = [(sg, os_, lp, h) for sg in (1, 2) for os_ in (0, 1) for lp in (0, 1) for h in (0, 1)]
     b = lambda x: "true" if x else "false"
-    r = gencmp.grid_check(keys, lambda a, c: f"(signal_compare {a[3]} {b(a[1])} {a[2]} {a[0]} {c[3]} {b(c[1])} {c[2]} {c[0]}).map (·.ret)")
+    r = gencmp.grid_check(keys, lambda a, c: f"match signal_compare {a[3]} {b(a[1])} {a[2]} {a[0]} {c[3]} {b(c[1])} {c[2]} {c[0]} with | some o => o.ret | none => 99")
     ctx.count()
     if r:
         law, ks, vals = r
@@ -865,4 +867,6 @@ def run(ctx):
     ctx.cov["rule"] = ("witness programs, an exhaustive 5-event scope on one handle, then random multi-loop programs "
                        "(1-3 loops, 1-8 handles, 1-3 signals, start/oneshot/stop/close/invalid signum, raise x1-3, run, "
                        "raise between poll and closing phase, scripted callbacks doing start/oneshot/stop/close on any handle); "
+                       "a signal raised inside start/oneshot/stop/close before/after the k-th system call of the call, all k, "
+                       "systematically over 7 call kinds and in random programs (monitors only); "
                        "non-trivial = >=2 signal callbacks, a close_cb and a scripted callback; distinct by trace hash")
